@@ -5,3 +5,7 @@ open Fzf.Props.C03
 #print axioms C03_ascii_classes
 #print axioms C03_bonus_matrix
 #print axioms C03_bonus_rules
+#print axioms C03_calculateScore_on_occurrence
+#print axioms C03_prefix_scored_as_occurrence
+#print axioms C03_suffix_scored_as_occurrence
+#print axioms C03_occurrence_score_bounds
